@@ -359,6 +359,24 @@ def stepDidwebResolve (j : Json) : String :=
     | .err e => "err:" ++ e
     | .panic s => "panic:" ++ s
 
+def stepHttpCache (j : Json) : String :=
+  let c := Sites.httpCacheCfg
+  let reqs := jArr j "reqs"
+  let rec go (rs : List Json) (seq : Nat) (s : HttpCache.St) (acc : List String) : List String :=
+    match rs with
+    | [] => acc.reverse
+    | r :: rest =>
+      let url := jStr r "url"
+      let exp : Int := if jBool r "expired" then (-3600000000 : Int) + seq else ((jNat r "age" * 1000000 + seq : Nat) : Int)
+      let fresh : Option HttpCache.Entry := if jBool r "cacheable" then some ⟨seq, url, jNat r "size", exp⟩ else none
+      match HttpCache.roundTrip c 0 url fresh s with
+      | (.hang, _) => ("timeout" :: acc).reverse
+      | (.done s', hit) =>
+        let lst := String.intercalate "," (s'.list.map fun e => s!"{e.url}:{e.size}")
+        go rest (seq + 1) s' (s!"{if hit then "hit" else "miss"} cur={s'.cur} list=[{lst}] idx={s'.index.length}" :: acc)
+  let parts := go reqs 1 (HttpCache.St.empty (jInt j "max")) []
+  if parts.contains "timeout" then "timeout" else String.intercalate " | " parts
+
 def libOf (s : String) : DidWeb.Lib := if s == "ok" then .ok else if s == "panic" then .panic else .err
 
 def stepDidnutsCallback (j : Json) : String :=
@@ -392,6 +410,7 @@ def step (st : Unit) (j : Json) : Unit × List String :=
   | "slc.update" => (st, [stepSlcUpdate j])
   | "didkey" => (st, [stepDidKey j])
   | "didnuts.callback" => (st, [stepDidnutsCallback j])
+  | "httpcache.seq" => (st, [stepHttpCache j])
   | "didweb.pct" => (st, [stepDidwebPct j])
   | "didweb.unescape" => (st, [stepDidwebUnescape j])
   | "didweb.url" => (st, [stepDidwebUrl j])
